@@ -280,6 +280,54 @@ func checkC06(c *Ctx) {
 		c.Check(ok, rule, fn, construct, pos, "space = "+wantName, fmt.Sprintf("%s (value is in space %s, required %s)", why, s, wantName))
 	}
 	translate := m.Func(PkgThreshold, "membership", "partyIDsByUniversalIDs")
+	if translate == nil {
+		// by role: the function that collects, by append, party identifiers obtained from the node→party
+		// table (its accessor or the table itself)
+		fTab0 := m.Field(PkgThreshold, "membership", "uID2PID")
+		var cands []*ssa.Function
+		for _, fn := range t.fns {
+			hit := false
+			for _, in := range instrsOf(fn) {
+				cl, ok := in.(*ssa.Call)
+				if !ok {
+					continue
+				}
+				if b, ok := cl.Call.Value.(*ssa.Builtin); !ok || b.Name() != "append" {
+					continue
+				}
+				st, isS := cl.Type().Underlying().(*types.Slice)
+				if !isS {
+					continue
+				}
+				if sp, okSp := spaceOfType(st.Elem()); !okSp || sp != spaceP {
+					continue
+				}
+				els := variadicElems(cl.Call.Args[1])
+				if len(els) != 1 {
+					continue
+				}
+				switch x := strip(els[0]).(type) {
+				case *ssa.Call:
+					if g := staticCallee(&x.Call); g != nil && g.Name() == "partyIDByUniversalID" {
+						hit = true
+					}
+				case *ssa.Lookup:
+					hit = hit || (fTab0 != nil && isLoadOfField(x.X, fTab0))
+				case *ssa.Extract:
+					if lk, isL := x.Tuple.(*ssa.Lookup); isL && fTab0 != nil && isLoadOfField(lk.X, fTab0) {
+						hit = true
+					}
+				}
+			}
+			if hit {
+				cands = append(cands, fn)
+			}
+		}
+		if len(cands) == 1 {
+			translate = cands[0]
+			c.Note("anchor: membership.partyIDsByUniversalIDs found by role (the function that collects translated party identifiers): %s", FuncName(translate))
+		}
+	}
 	for _, fn := range t.fns {
 		for _, in := range instrsOf(fn) {
 			pos := m.Pos(in.Pos())
@@ -363,12 +411,19 @@ func checkC06(c *Ctx) {
 				}
 			}
 		}
-		if clo == nil {
+		// a method value of a per-session link object (`link.send`): the method, its parameters after the receiver
+		off := 0
+		if _, meth, isBM := boundMethod(cc.Args[2]); isBM {
+			if g := m.Prog.FuncValue(meth); g != nil && g.Blocks != nil && pkgPathOf(g) == PkgThreshold && len(g.Params) == 4 {
+				clo, off = g, 1
+			}
+		}
+		if clo == nil || len(clo.Params) < 3+off {
 			c.Unk(V1, FuncName(ci.Parent()), "sendMsg closure", m.Pos(ci.Pos()), "the sendMsg argument of Init is not a closure literal")
 			continue
 		}
 		c.Analysed(FuncName(clo))
-		isB := strip(clo.Params[1])
+		isB := strip(clo.Params[1+off])
 		for _, in := range instrsOf(clo) {
 			call, ok := in.(*ssa.Call)
 			if !ok || !callsFuncField(&call.Call, t.fSend) {
@@ -413,7 +468,7 @@ func checkC06(c *Ctx) {
 						}
 					}
 				}
-				dep = dep && s[clo.Params[2]]
+				dep = dep && s[clo.Params[2+off]]
 			}
 			c.Check(ok1 && dep, V1, FuncName(clo), "point-to-point destination", m.Pos(call.Pos()), "one node, derived from sendMsg's `to` and from the agreed participant list of this session",
 				"the node a point-to-point protocol message is sent to is taken from the global party→node table, which is built by ranging over a Go map: with several nodes per party an arbitrary replica — not the one that participates in this session — receives the secret share")
@@ -464,7 +519,7 @@ func checkC06(c *Ctx) {
 
 	// ------------------------------------------------------------------ G1 / O1
 	if translate == nil {
-		c.Fatalf("anchor", "membership.partyIDsByUniversalIDs not found")
+		c.Fatalf("anchor", "membership.partyIDsByUniversalIDs not found (by name, fingerprint or role)")
 		return
 	}
 	c.Analysed(FuncName(translate))
@@ -474,6 +529,7 @@ func checkC06(c *Ctx) {
 	}
 	nApp := 0
 	var usedLookup *ssa.Lookup
+	var listFA *ssa.FieldAddr // the list is a field of an object (set at the append)
 	for _, in := range instrsOf(translate) {
 		cl, ok := in.(*ssa.Call)
 		if !ok {
@@ -488,6 +544,11 @@ func checkC06(c *Ctx) {
 		}
 		nApp++
 		pid := strip(els[0])
+		if ld, isLd := strip(cl.Call.Args[0]).(*ssa.UnOp); isLd && ld.Op == token.MUL {
+			if fa, isFA := ld.X.(*ssa.FieldAddr); isFA {
+				listFA = fa
+			}
+		}
 		// the not-seen test: `_, seen := used[pid]` or, for a map to bool, `used[pid]` itself
 		ok2 := boolFact(FactsAt(cl), false, func(v ssa.Value) bool {
 			var lk *ssa.Lookup
@@ -526,7 +587,7 @@ func checkC06(c *Ctx) {
 				}
 			}
 			for _, in2 := range instrsOf(translate) {
-				if mu, isMU := in2.(*ssa.MapUpdate); isMU && strip(mu.Map) == strip(usedLookup.X) && strip(mu.Key) == pid {
+				if mu, isMU := in2.(*ssa.MapUpdate); isMU && (strip(mu.Map) == strip(usedLookup.X) || sameValue(mu.Map, usedLookup.X)) && strip(mu.Key) == pid {
 					okMark = true
 				}
 			}
@@ -545,13 +606,51 @@ func checkC06(c *Ctx) {
 		}
 		res := strip(retResult(r, 0))
 		okSort := false
+		// the list is collected in a field of the object that is returned (a session struct): sorted means
+		// a sort of that field of that object dominates the return and nothing stores to the field after it
+		if listFA != nil && (strip(listFA.X) == res || sameObject(listFA.X, res) || sameValue(listFA.X, res)) {
+			lf := fieldOfAddr(listFA)
+			for _, in2 := range instrsOf(translate) {
+				cl, ok := in2.(*ssa.Call)
+				if !ok || !isSortCall(cl) || len(cl.Call.Args) < 1 || !instrDominates(cl, r) {
+					continue
+				}
+				_, f2, isF := fieldLoad(strip(cl.Call.Args[0]))
+				if !isF || f2 != lf {
+					continue
+				}
+				after := reachableBlocks(cl.Block())
+				written := false
+				for _, st := range storesToField([]*ssa.Function{translate}, lf) {
+					if st.Block() == cl.Block() {
+						if instrIndex(st) > instrIndex(cl) {
+							written = true
+						}
+						for _, sb := range cl.Block().Succs {
+							if reachableBlocks(sb)[cl.Block()] {
+								written = true // the block is inside a loop
+							}
+						}
+						continue
+					}
+					if after[st.Block()] {
+						written = true
+					}
+				}
+				if !written {
+					okSort = true
+				}
+			}
+			c.Check(okSort, G1, FuncName(translate), "result sorted before the success return", m.Pos(r.Pos()), "a sort of the collected list dominates the return, nothing is appended after it", "parties initialise their backends with differently ordered party lists")
+			continue
+		}
 		for _, in2 := range instrsOf(translate) {
 			cl, ok := in2.(*ssa.Call)
 			if !ok {
 				continue
 			}
 			cal := staticCallee(&cl.Call)
-			isSort := cal != nil && cal.Name() == "sortPartyIdentifiers"
+			isSort := cal != nil && (cal.Name() == "sortPartyIdentifiers" || isSortHelper(cal))
 			for _, nm := range [][2]string{{"sort", "Sort"}, {"sort", "Slice"}, {"sort", "SliceStable"}, {"sort", "Stable"}, {"slices", "Sort"}} {
 				if isCallTo(&cl.Call, nm[0], nm[1]) {
 					isSort = true
@@ -579,6 +678,55 @@ func checkC06(c *Ctx) {
 	}
 	c.Check(okTab, G1, FuncName(translate), "translation through the node→party table", m.Pos(translate.Pos()), "partyIDByUniversalID(id) per agreed node", "the agreed nodes are not translated through the membership table")
 	_ = sort.Strings
+	ruleC06TableTotal(c, m, fTab)
+}
+
+// ruleC06TableTotal (C06.T1): the node→party table is total over the configured mapping.  Every
+// translation of the property (party list for Init, source of a received message, destination of a
+// point-to-point message, refusal of two nodes of one party) reads membership.uID2PID; a configured node
+// without an entry is read as party 0.  Decided: the map that the membership literal is given for that
+// field is filled by stores that are unconditional inside their loop — no data test (such as "this party
+// already has a representative") stands between the iteration over the configured nodes and the store.
+func ruleC06TableTotal(c *Ctx, m *Module, fTab *types.Var) {
+	const T1 = "C06.T1"
+	c.Rule(T1, "the node→party table gets an entry for every configured node", 1)
+	if fTab == nil {
+		c.Unk(T1, "threshold", "node→party table", "-", "membership.uID2PID not found")
+		return
+	}
+	n := 0
+	for _, fn := range m.PkgFuncs(PkgThreshold) {
+		for _, st := range storesToField([]*ssa.Function{fn}, fTab) {
+			mk, ok := strip(st.Val).(*ssa.MakeMap)
+			if !ok {
+				// the map comes from elsewhere: only a make in the building function is understood
+				c.Unk(T1, FuncName(fn), "node→party table", m.Pos(st.Pos()), "the table stored into the membership is not a map made in the same function")
+				n++
+				continue
+			}
+			ups := 0
+			for _, in := range instrsDeep(fn) {
+				mu, isMU := in.(*ssa.MapUpdate)
+				// (the map itself, or the table read back from the membership that is being built)
+				if !isMU || !(strip(mu.Map) == ssa.Value(mk) || isLoadOfField(mu.Map, fTab)) {
+					continue
+				}
+				ups++
+				n++
+				uncond := len(GuardsOf(mu)) == 0 || onlyLoopGuards(mu)
+				c.Check(uncond, T1, FuncName(mu.Parent()), "store into the node→party table", m.Pos(mu.Pos()),
+					"unconditional inside the loop over the configured nodes",
+					"a configured node gets an entry in the node→party table only under a condition: a node without an entry is translated to party 0 — the party list handed to the backends, the attribution of its messages, the destination of point-to-point messages and the refusal of two nodes of one party are all wrong for memberships in which a party has several nodes")
+			}
+			if ups == 0 {
+				n++
+				c.Bad(T1, FuncName(fn), "store into the node→party table", m.Pos(mk.Pos()), "the table is never filled")
+			}
+		}
+	}
+	if n == 0 {
+		c.Bad(T1, "threshold", "node→party table", "-", "no construction of membership.uID2PID found")
+	}
 }
 
 // sameCellUnwrittenAfter: a and b are loads of one local variable that lives in a cell (it is captured
@@ -645,4 +793,55 @@ func sameCellUnwrittenAfter(a, b ssa.Value, from ssa.Instruction) bool {
 		}
 	}
 	return true
+}
+
+func isSortCall(cl *ssa.Call) bool {
+	if cal := staticCallee(&cl.Call); cal != nil && (cal.Name() == "sortPartyIdentifiers" || isSortHelper(cal)) {
+		return true
+	}
+	for _, nm := range [][2]string{{"sort", "Sort"}, {"sort", "Slice"}, {"sort", "SliceStable"}, {"sort", "Stable"}, {"slices", "Sort"}} {
+		if isCallTo(&cl.Call, nm[0], nm[1]) {
+			return true
+		}
+	}
+	return false
+}
+
+// isSortHelper: an own function of one slice parameter whose body, unconditionally, hands that
+// parameter (possibly converted to a sort.Interface type) to a sorting function of the standard library
+// (`func sortIDs[ID ~uint16](ids []ID) { sort.Slice(ids, …) }`).  Generic helpers are read through their
+// instantiation, or through the generic origin when the instance has no body of its own.
+func isSortHelper(g *ssa.Function) bool {
+	if g == nil || !ownPkgPath(pkgPathOf(g)) && (g.Origin() == nil || !ownPkgPath(pkgPathOf(g.Origin()))) {
+		return false
+	}
+	body := g
+	if len(body.Blocks) == 0 && g.Origin() != nil {
+		body = g.Origin()
+	}
+	if len(body.Blocks) == 0 || len(body.Params) != 1 {
+		return false
+	}
+	if _, isSl := body.Params[0].Type().Underlying().(*types.Slice); !isSl {
+		if _, isTP := body.Params[0].Type().(*types.TypeParam); !isTP {
+			return false
+		}
+	}
+	for _, in := range body.Blocks[0].Instrs {
+		cl, ok := in.(*ssa.Call)
+		if !ok || len(cl.Call.Args) < 1 {
+			continue
+		}
+		for _, nm := range [][2]string{{"sort", "Sort"}, {"sort", "Slice"}, {"sort", "SliceStable"}, {"sort", "Stable"}, {"slices", "Sort"}} {
+			if isCallTo(&cl.Call, nm[0], nm[1]) {
+				noParamLook++
+				a := strip(cl.Call.Args[0])
+				noParamLook--
+				if a == ssa.Value(body.Params[0]) {
+					return true
+				}
+			}
+		}
+	}
+	return false
 }
